@@ -21,8 +21,17 @@ extern "C" {
    /* VectorBase<R>::operator*= as a function on raw storage: proved on the real body in instance vec_scale,
       replaced by its contract in getDualSol / getRedCostSol */
    void w_vec_scale(double* val, int n, double s);
+   /* VectorBase<R>::operator=(const VectorBase<S>&) and clear(): std::vector code, not sliceable; stubs with an
+      ASSUMED contract (contract.c), used only by the ROW-representation instances */
+   void c_vec_copy(double* dst, const double* src, int n);
+   void c_vec_clear(double* v, int n);
 }
 
+#ifdef REP_ROW
+#define ROW_ONLY()
+#else
+#define ROW_ONLY() __CPROVER_assert(0, "ROW representation branch unreachable")
+#endif
 #define VectorBase VectorBaseRaw
 #include "containers.h"
 #undef VectorBase
@@ -30,8 +39,17 @@ template <class T> struct VectorBase : VectorBaseRaw<T>
 {
    VectorBase() {}
    VectorBase& operator*=(const double& x) { w_vec_scale((double*)this->val, this->dimen, x); return *this; }
-   /* only used by the ROW-representation branches, which the instances exclude by precondition */
-   void clear() { __CPROVER_assert(0, "ROW representation branch not modelled (unreachable)"); }
+#ifdef REP_ROW
+   VectorBase& operator=(const VectorBase& v)
+   {
+      __CPROVER_assert(this->dimen == v.dimen, "vector assignment: the stub has fixed storage, dimensions must agree");
+      c_vec_copy((double*)this->val, (const double*)v.val, v.dimen); return *this;
+   }
+   void clear() { c_vec_clear((double*)this->val, this->dimen); }
+#else
+   /* only used by the ROW-representation branches, which the COLUMN instances exclude by precondition */
+   void clear() { __CPROVER_assert(0, "ROW representation branch unreachable"); }
+#endif
 };
 
 /* ---- throw: compiled as a checked call.  A status exception is allowed exactly when the wrapper says so
@@ -61,29 +79,12 @@ struct SPxRowId { int idx; explicit SPxRowId(const SPxId& k) { idx = k.idx; } };
 /* `SPxLPBase<R>::lower(i)`, `SPxBasisBase<R>::status()`, `SPxBasisBase<R>::Desc::P_ON_LOWER`: the bodies use these
  * qualified names.  They are served by templates WITHOUT data members (the front end does not generate constructors
  * of class templates with class-type data members reliably); their member functions read the single solver object's
- * data through ghost globals set by the wrapper.  All other LP / basis members live in the non-template LPData / BasisData. */
+ * data through ghost globals set by the wrapper.  All other LP / basis members live in SolverHost itself. */
 template <class T> struct SPxLPBase
 {
 #include "SPxSense.inc"
    const T& lower(int i) const { __CPROVER_assert(0 <= i && i < g_ncols, "VectorBase index in bounds"); return ((const T*)gp_low)[i]; }
    const T& upper(int i) const { __CPROVER_assert(0 <= i && i < g_ncols, "VectorBase index in bounds"); return ((const T*)gp_up)[i]; }
-};
-struct LPData
-{
-   typedef R T;
-   VectorBase<T> left, right, object;
-   int nc, nr; SPxLPBase<R>::SPxSense thesense;
-   int nCols() const { return nc; }
-   int nRows() const { return nr; }
-   const T& lhs(int i) const { return left[i]; }
-   const T& rhs(int i) const { return right[i]; }
-   const VectorBase<T>& maxObj() const { return *(VectorBase<T>*)&object; }
-   const VectorBase<T>& maxRowObj() const { __CPROVER_assert(0, "ROW representation branch not modelled (unreachable)"); return *(VectorBase<T>*)&object; }
-   SPxLPBase<R>::SPxSense spxSense() const { return thesense; }
-   /* DataKey -> index lookup of LPColSetBase/LPRowSetBase: the stub id carries the index itself; assumed type
-      invariant of the basis: every id stored in it names an existing column/row */
-   int number(const SPxColId& id) const { __CPROVER_assume(0 <= id.idx && id.idx < nc); return id.idx; }
-   int number(const SPxRowId& id) const { __CPROVER_assume(0 <= id.idx && id.idx < nr); return id.idx; }
 };
 
 template <class T> struct SPxBasisBase
@@ -99,23 +100,9 @@ template <class T> struct SPxBasisBase
    };
    SPxStatus status() const { return (SPxStatus)g_basis_status; }
 };
-struct BasisData
-{
-   SPxBasisBase<R>::Desc thedesc;
-   const int* bid_info; const int* bid_idx; int nbase; int ghost_kind;
-   const SPxBasisBase<R>::Desc& desc() const { return *(SPxBasisBase<R>::Desc*)&thedesc; }
-   /* theBaseId[i].  Assumed type invariant of the basis (injectivity of baseId): the ghost column (ghost_kind>0) resp.
-      ghost row (ghost_kind<0) g_k sits at basis position g_j and nowhere else (g_j == -1: it is not in the basis) */
-   SPxId baseId(int i) const
-   {
-      __CPROVER_assert(0 <= i && i < nbase, "theBaseId index in bounds");
-      SPxId id; id.info = bid_info[i]; id.idx = bid_idx[i];
-      __CPROVER_assume(-1 <= id.info && id.info <= 1);
-      __CPROVER_assume((((ghost_kind > 0) ? id.info > 0 : id.info < 0) && id.idx == g_k) == (i == g_j));
-      return id;
-   }
-};
 
+/* the unwinding itself is not modelled: a throw ends the path (after the check of whether it was allowed) */
+extern "C" void verif_throw(void) {}
 struct ThrowCheck
 {
    void operator=(const SPxStatusException&)
@@ -131,8 +118,42 @@ struct ThrowCheck
 };
 #define throw ThrowCheck() =
 
-struct SolverHost : SPxLPBase<R>, SPxBasisBase<R>, LPData, BasisData
+/* One host class: CBMC does not adjust `this` for member functions of a second base (README point 16).  The two
+ * bases have no data members and their member functions never touch `this`, so they are immune. */
+struct SolverHost : SPxLPBase<R>, SPxBasisBase<R>
 {
+   /* ---- SPxLPBase<R> part ---- */
+   typedef R T;
+   VectorBase<T> left, right, object;
+   int nc, nr; SPxLPBase<R>::SPxSense thesense;
+   int nCols() const { return nc; }
+   int nRows() const { return nr; }
+   const T& lhs(int i) const { return left[i]; }
+   const T& rhs(int i) const { return right[i]; }
+   const VectorBase<T>& maxObj() const { return *(VectorBase<T>*)&object; }
+   const VectorBase<T>& maxRowObj() const { ROW_ONLY(); return *(VectorBase<T>*)&object; }
+   /* real return type: SPxSense; CBMC cannot convert an enumeration to double (`Real(this->spxSense())`), so the stub
+      returns the enumerator's value as int (comparisons with SPxLPBase<R>::MINIMIZE are unaffected) */
+   int spxSense() const { return (int)thesense; }
+   /* DataKey -> index lookup of LPColSetBase/LPRowSetBase: the stub id carries the index itself; assumed type
+      invariant of the basis: every id stored in it names an existing column/row */
+   int number(const SPxColId& id) const { __CPROVER_assume(0 <= id.idx && id.idx < nc); return id.idx; }
+   int number(const SPxRowId& id) const { __CPROVER_assume(0 <= id.idx && id.idx < nr); return id.idx; }
+   /* ---- SPxBasisBase<R> part ---- */
+   SPxBasisBase<R>::Desc thedesc;
+   const int* bid_info; const int* bid_idx; int nbase; int ghost_kind;
+   const SPxBasisBase<R>::Desc& desc() const { return *(SPxBasisBase<R>::Desc*)&thedesc; }
+   /* theBaseId[i].  Assumed type invariant of the basis (injectivity of baseId): the ghost column (ghost_kind>0) resp.
+      ghost row (ghost_kind<0) g_k sits at basis position g_j and nowhere else (g_j == -1: it is not in the basis) */
+   SPxId baseId(int i) const
+   {
+      __CPROVER_assert(0 <= i && i < nbase, "theBaseId index in bounds");
+      SPxId id; id.info = bid_info[i]; id.idx = bid_idx[i];
+      __CPROVER_assume(-1 <= id.info && id.info <= 1);
+      __CPROVER_assume((((ghost_kind > 0) ? id.info > 0 : id.info < 0) && id.idx == g_k) == (i == g_j));
+      return id;
+   }
+   /* ---- SPxSolverBase<R> part ---- */
 #include "SolverStatus.inc"
 #include "Representation.inc"
    Status m_status; Representation theRep; bool initialized; int thedim;
@@ -150,24 +171,24 @@ struct SolverHost : SPxLPBase<R>, SPxBasisBase<R>, LPData, BasisData
    {
 #include "fVec.inc"
    }
-   VectorBase<R>& pVec() const { __CPROVER_assert(0, "ROW representation branch not modelled (unreachable)"); return *thePvec; }
-   VectorBase<R>& coPvec() const { __CPROVER_assert(0, "ROW representation branch not modelled (unreachable)"); return *theCoPvec; }
+   VectorBase<R>& pVec() const { ROW_ONLY(); return *thePvec; }
+   VectorBase<R>& coPvec() const { ROW_ONLY(); return *theCoPvec; }
    Status status() const
    {
 #include "status.inc"
    }
-};
-
 #ifdef INST_EXTRACT
-struct H : SolverHost
-{
    VectorBase<R>* p_vector_;
    Status body() const
    {
       VectorBase<R>& p_vector = *p_vector_;
 #include SLICE
    }
+#endif
 };
+
+#ifdef INST_EXTRACT
+typedef SolverHost H;
 /*  stat      : column statuses (getPrimalSol, getRedCostSol) / row statuses (getSlacks, getDualSol), n of them
  *  a, b      : lower,upper | lhs,rhs | coPvec,- | maxObj,pVec
  *  fvec, bid_info, bid_idx : the basic solution vector and theBaseId, dim entries */
@@ -176,7 +197,11 @@ extern "C" int w_extract(const int* stat, int n, double* a, double* b, double* f
 {
    VIN("n", n); VIN("dim", dim); VIN("sense", sense); VIN("m_status", m_status); VIN("basis_status", basis_status);
    H h; VectorBase<R> F, P, C, O;
+#if defined(REP_ROW) && defined(KIND_DUAL)
+   h.nc = dim; h.nr = n;          /* ROW representation: the basis has nCols() entries, the duals are indexed by rows */
+#else
    h.nc = n; h.nr = n;
+#endif
    h.left.val = (R*)a; h.left.dimen = n; h.right.val = (R*)b; h.right.dimen = n;
    h.object.val = (R*)a; h.object.dimen = n;
    h.thesense = (SPxLPBase<R>::SPxSense)sense;
@@ -190,7 +215,7 @@ extern "C" int w_extract(const int* stat, int n, double* a, double* b, double* f
    if(0 <= g_k && g_k < n)
    {
       v_old = out[g_k];
-#ifdef KIND_REDCOST
+#if defined(KIND_REDCOST) && !defined(REP_ROW)
       v_new = dval(((R*)a)[g_k] - ((R*)b)[g_k]);       /* ghost copy of maxObj[g] - pVec[g] (see contract.c) */
 #endif
    }
